@@ -85,6 +85,12 @@ class Check:
         self.states = 0
         self.transitions = 0
 
+    def stage(self, name):
+        """Record wall time per stage (kept in the evidence under coverage.stages_s)."""
+        now = time.time()
+        self.coverage.setdefault("stages_s", {})[name] = round(now - getattr(self, "_tstage", self.t0), 2)
+        self._tstage = now
+
     @property
     def quick(self):
         return self.tier == "quick"
